@@ -342,3 +342,13 @@ impl PingMessage {
         }
     }
 }
+
+#[cfg(feature = "verif-hooks")]
+/// verif-hooks: `PingMessage::decode` exactly as `PingHandler::received` calls it:
+/// `None` | `Some((false, nonce))` for Ping | `Some((true, nonce))` for Pong
+pub(crate) fn verif_decode(data: &[u8]) -> Option<(bool, u32)> {
+    PingMessage::decode(data).map(|p| match p {
+        PingPayload::Ping(n) => (false, n),
+        PingPayload::Pong(n) => (true, n),
+    })
+}
